@@ -1,6 +1,7 @@
 #!/bin/bash
 # run every claimed check once in the thorough tier and summarise (hours)
 cd "$(dirname "$0")/.."
+[ -n "$VP_RUN_REPO" ] && export VERIF_REPO=$VP_RUN_REPO
 ./setup.sh > .work_setup.log 2>&1 || { echo "setup failed"; tail -20 .work_setup.log; exit 1; }
 for c in ${@:-C15 C16 C17 C18 C19 C13 C06 C08 C12 C04 C05 C09 C10 C02 C01 C07 C03 C14 C11}; do
   s=$(date +%s); out=$(timeout 7200 ./check $c --tier thorough 2>&1); rc=$?; e=$(date +%s)
